@@ -4,7 +4,7 @@ import asyncio
 from vlib import evalimpl, valcorr
 from vlib.runner import finish, prepare
 
-GENS = ["Gen_logic", "Gen_ranges", "Gen_valmaps", "Gen_enums"]
+GENS = ["Gen_logic", "Gen_ranges", "Gen_valmaps", "Gen_enums", "Gen_select", "Gen_status"]
 COMBINE = {(None, "IS_REQUIRED"): "IS_REQUIRED", (None, "IS_OPTIONAL"): "IS_OPTIONAL", (None, "IS_FORBIDDEN"): "IS_FORBIDDEN",
            ("IS_REQUIRED", "IS_REQUIRED"): "IS_REQUIRED", ("IS_REQUIRED", "IS_FORBIDDEN"): "IS_FORBIDDEN", ("IS_REQUIRED", "IS_OPTIONAL"): "IS_OPTIONAL",
            ("IS_OPTIONAL", "IS_REQUIRED"): "IS_OPTIONAL", ("IS_OPTIONAL", "IS_FORBIDDEN"): "IS_FORBIDDEN", ("IS_OPTIONAL", "IS_OPTIONAL"): "IS_OPTIONAL"}
@@ -244,7 +244,7 @@ def oracle(ctx, case):
 
 
 def run(ctx):
-    built = prepare(ctx, GENS, ["Props/C13.vo", "Corr/Validate.vo"])
+    built = prepare(ctx, GENS, ["Props/C13.vo", "Corr/Validate.vo", "Proofs/C09_gen.vo", "Proofs/C13_gen.vo"])
     translator_validation(ctx)
     cases = valcorr.validation_cases(ctx, 60 if ctx.quick else 1500, unknown=0.04)
     cases += valcorr.validation_cases(ctx, 40 if ctx.quick else 600, unknown=0.35)   # UNKNOWN outcomes at many nodes: the abort rule of the mapping
